@@ -6,7 +6,8 @@
 //   sincos <turn>                         -> <sin> <cos>     (sincos(Turn): sincospi(2 turn))
 //   simplify <tol> <+|-> <tag> <data..>   -> <+|-> <tag> <data..>   (RecursiveSimplifier)
 //   build <tol> <n | t tx ty tz> <region> -> ok nodes k ; <s> <id> <surf> ... | surfs n ; ... | L .. G .. M ..
-//   e2e <tol> <world hw> <object> | x y z x y z ...   -> ok <one char per probe: m b x f>
+//   e2e <tol> <world hw> <f0|f1> <object> | x y z ...  -> ok <one char per probe: m b F x f>
+//        (f1: two filler material boxes at ±0.85 world so that the BIH gets inner nodes)
 //   member ...                            -> (model only op; harness answers with the real CSG
 //                                            SenseEvaluator on the standalone built region)
 //
@@ -16,9 +17,12 @@
 // object  := shape <region> | solid <region> (excl <region params of same type> | noexcl)
 //            (angle start interior | noangle) | tr tx ty tz <object> | neg <object>
 //          | all <k> <object>*k | any <k> <object>*k | sub <object> <object>
-// All doubles are 16-hex-digit bit patterns.  Every op that runs construction code is executed
-// in a forked child so that a crash (e.g. unbounded recursion) is reported as `crash sig<N>`.
+// All doubles are 16-hex-digit bit patterns.  Every op that runs construction code is guarded so
+// that a crash (e.g. unbounded recursion -> stack overflow) is reported as `crash sig<N>`.
 #include <cmath>
+#include <csetjmp>
+#include <csignal>
+#include <cstdlib>
 #include <functional>
 #include <memory>
 #include <optional>
@@ -55,6 +59,7 @@ using namespace celeritas;
 using std::string;
 using Words = std::vector<string>;
 using vecd = std::vector<double>;
+namespace oid = celeritas::orangeinp::detail;
 
 //---------------------------------------------------------------------------//
 template<class T>
@@ -104,6 +109,7 @@ struct Parser
     Words const& w;
     std::size_t i;
     bool ok{true};
+    bool oracle{true};  // ppiped / wedge carry sincos oracle inputs (build/member ops)
 
     string next()
     {
@@ -184,6 +190,10 @@ static bool parse_region_params(Parser& p, string const& type, RegionSpec* r)
         r->n = p.integer();
         reals(3);
     }
+    else if (type == "ppiped" && !p.oracle)
+        reals(6);
+    else if (type == "wedge" && !p.oracle)
+        reals(2);
     else if (type == "ppiped")
     {
         reals(12);
@@ -267,68 +277,82 @@ static std::shared_ptr<IntersectRegionInterface> make_region(RegionSpec const& r
 }
 
 //---------------------------------------------------------------------------//
-// run `f` in a forked child; a crash becomes "crash sig<N>"
+// run `f` guarded: exceptions become `err ...`; a stack overflow (unbounded recursion) or any
+// other SIGSEGV/SIGBUS/SIGFPE/SIGABRT inside the construction code becomes `crash sig<N>`.
+// (fork() per op costs ~100 ms in this sandbox, so the guard is a signal handler on an alternate
+// stack that long-jumps back; whatever the abandoned frames owned is leaked, nothing else.)
+static sigjmp_buf g_jmp;
+static volatile sig_atomic_t g_armed = 0;
+
+static void on_fatal_signal(int sig)
+{
+    if (g_armed)
+    {
+        g_armed = 0;
+        siglongjmp(g_jmp, sig);
+    }
+    _exit(128 + sig);
+}
+
+static void install_guard()
+{
+    static bool done = false;
+    if (done)
+        return;
+    done = true;
+    stack_t ss;
+    ss.ss_size = 1 << 18;
+    ss.ss_sp = std::malloc(ss.ss_size);
+    ss.ss_flags = 0;
+    sigaltstack(&ss, nullptr);
+    struct sigaction sa;
+    std::memset(&sa, 0, sizeof sa);
+    sa.sa_handler = on_fatal_signal;
+    sa.sa_flags = SA_ONSTACK;
+    sigemptyset(&sa.sa_mask);
+    for (int sig : {SIGSEGV, SIGBUS, SIGFPE, SIGABRT})
+        sigaction(sig, &sa, nullptr);
+    // a smaller stack makes an unbounded recursion end quickly
+    struct rlimit rl;
+    if (getrlimit(RLIMIT_STACK, &rl) == 0)
+    {
+        rl.rlim_cur = 4u << 20;
+        setrlimit(RLIMIT_STACK, &rl);
+    }
+}
+
+static string run_catching(std::function<string()> const& f)
+{
+    try
+    {
+        return f();
+    }
+    catch (RuntimeError const& e)
+    {
+        return "err validate";
+    }
+    catch (DebugError const& e)
+    {
+        return "err assert";
+    }
+    catch (std::exception const& e)
+    {
+        return "err exception";
+    }
+}
+
 static string forked(std::function<string()> const& f)
 {
-    int fd[2];
-    if (pipe(fd) != 0)
-        return "err pipe";
-    std::cout.flush();
-    pid_t pid = fork();
-    if (pid < 0)
-        return "err fork";
-    if (pid == 0)
+    install_guard();
+    int sig = sigsetjmp(g_jmp, 1);
+    if (sig == 0)
     {
-        close(fd[0]);
-        struct rlimit rl;
-        rl.rlim_cur = rl.rlim_max = 0;
-        setrlimit(RLIMIT_CORE, &rl);
-        string s;
-        try
-        {
-            s = f();
-        }
-        catch (RuntimeError const& e)
-        {
-            s = "err validate";
-        }
-        catch (DebugError const& e)
-        {
-            s = "err assert";
-        }
-        catch (std::exception const& e)
-        {
-            s = "err exception";
-        }
-        std::size_t off = 0;
-        while (off < s.size())
-        {
-            auto k = write(fd[1], s.data() + off, s.size() - off);
-            if (k <= 0)
-                break;
-            off += static_cast<std::size_t>(k);
-        }
-        close(fd[1]);
-        _exit(0);
+        g_armed = 1;
+        string r = run_catching(f);
+        g_armed = 0;
+        return r;
     }
-    close(fd[1]);
-    string out;
-    char buf[4096];
-    for (;;)
-    {
-        auto k = read(fd[0], buf, sizeof buf);
-        if (k <= 0)
-            break;
-        out.append(buf, static_cast<std::size_t>(k));
-    }
-    close(fd[0]);
-    int status = 0;
-    waitpid(pid, &status, 0);
-    if (WIFSIGNALED(status))
-        return "crash sig" + std::to_string(WTERMSIG(status));
-    if (!WIFEXITED(status) || WEXITSTATUS(status) != 0)
-        return "crash exit" + std::to_string(WEXITSTATUS(status));
-    return out;
+    return "crash sig" + std::to_string(sig);
 }
 
 //---------------------------------------------------------------------------//
@@ -343,8 +367,8 @@ struct Built
 static void build_region(double tol, VariantTransform const& vt, RegionSpec const& spec, Built* b)
 {
     using namespace orangeinp;
-    detail::CsgUnitBuilder ub{&b->unit, Tolerance<>::from_relative(tol), BBox::from_infinite()};
-    detail::IntersectSurfaceState css;
+    oid::CsgUnitBuilder ub{&b->unit, Tolerance<>::from_relative(tol), BBox::from_infinite()};
+    oid::IntersectSurfaceState css;
     css.transform = &vt;
     css.object_name = "cr";
     css.make_face_name = {};
@@ -354,7 +378,7 @@ static void build_region(double tol, VariantTransform const& vt, RegionSpec cons
     b->nodes = css.nodes;
     b->local = css.local_bzone;
     b->global = css.global_bzone;
-    b->merged = detail::calc_merged_bzone(css);
+    b->merged = oid::calc_merged_bzone(css);
 }
 
 static string do_build(double tol, VariantTransform const& vt, RegionSpec const& spec)
@@ -398,15 +422,20 @@ static string do_member(double tol, VariantTransform const& vt, RegionSpec const
     using namespace orangeinp;
     Built b;
     build_region(tol, vt, spec, &b);
-    detail::CsgUnitBuilder* dummy = nullptr;
-    (void)dummy;
-    NodeId all = b.unit.tree.insert(Joined{op_and, b.nodes}).first;
     string out = "ok ";
     for (std::size_t k = 0; k + 2 < pts.size(); k += 3)
     {
         Real3 pos{pts[k], pts[k + 1], pts[k + 2]};
-        detail::SenseEvaluator eval(b.unit.tree, b.unit.surfaces, pos);
-        SignedSense ss = eval(all);
+        oid::SenseEvaluator eval(b.unit.tree, b.unit.surfaces, pos);
+        // all(nodes) as SenseEvaluator evaluates a Joined{op_and}: first non-"inside" decides
+        // (evaluated on the emitted literals in emission order, before CsgTree sorts them)
+        SignedSense ss = SignedSense::inside;
+        for (NodeId n : b.nodes)
+        {
+            ss = eval(n);
+            if (ss != SignedSense::inside)
+                break;
+        }
         out += ss == SignedSense::inside ? 'i' : ss == SignedSense::outside ? 'o' : 's';
     }
     return out;
@@ -598,11 +627,13 @@ struct ObjParser
     }
 };
 
-static string do_e2e(double tol, double world, Words const& w, std::size_t start, std::size_t bar)
+static string do_e2e(double tol, double world, bool fillers, Words const& w, std::size_t start,
+                     std::size_t bar)
 {
     using namespace orangeinp;
     Words ow(w.begin() + start, w.begin() + bar);
     Parser p{ow, 0};
+    p.oracle = false;
     ObjParser op{p};
     auto obj = op.object();
     if (!obj || !p.done())
@@ -628,6 +659,22 @@ static string do_e2e(double tol, double world, Words const& w, std::size_t start
     m.fill = GeoMaterialId{1};
     m.label = Label{"mat"};
     inp.materials.push_back(std::move(m));
+    if (fillers)
+    {
+        // two more finite volumes far from the object so that the BIH has inner nodes and the
+        // object's exterior bounding box takes part in point location
+        for (int sgn : {-1, 1})
+        {
+            double c = sgn * 0.85 * world, h = 0.05 * world;
+            UnitProto::MaterialInput f;
+            f.interior = std::make_shared<Transformed>(
+                std::make_shared<Shape<Box>>(sgn < 0 ? "fillbox0" : "fillbox1", Box{Real3{h, h, h}}),
+                Translation{Real3{c, c, c}});
+            f.fill = GeoMaterialId{2};
+            f.label = Label{"fill"};
+            inp.materials.push_back(std::move(f));
+        }
+    }
     UnitProto proto{std::move(inp)};
     InputBuilder::Options o;
     o.tol = Tolerance<>::from_relative(tol);
@@ -643,7 +690,7 @@ static string do_e2e(double tol, double world, Words const& w, std::size_t start
         if (!g.failed() && g.volume_id())
         {
             string const& name = params.volumes().at(g.volume_id()).name;
-            c = name == "mat" ? 'm' : name == "bg" ? 'b' : g.is_outside() ? 'x' : '?';
+            c = name == "mat" ? 'm' : name == "bg" ? 'b' : name == "fill" ? 'F' : g.is_outside() ? 'x' : '?';
         }
         else if (!g.failed() && g.is_outside())
             c = 'x';
@@ -745,18 +792,24 @@ static string handle(Words const& w)
         double world = p.real();
         if (!p.ok || !(world > 0))
             return "bad-op";
+        string fk = p.next();
+        if (!p.ok || (fk != "f0" && fk != "f1"))
+            return "bad-op";
+        bool fillers = fk == "f1";
         std::size_t bar = p.i;
         while (bar < w.size() && w[bar] != "|")
             ++bar;
         if (bar >= w.size())
             return "bad-op";
-        return forked([&] { return do_e2e(tol, world, w, p.i, bar); });
+        return forked([&] { return do_e2e(tol, world, fillers, w, p.i, bar); });
     }
     return "bad-op";
 }
 
 int main()
 {
+    // the library logs failed initialisations to stderr, which the runner merges into stdout
+    std::freopen("/dev/null", "w", stderr);
     string line;
     while (std::getline(std::cin, line))
     {
